@@ -8,24 +8,29 @@ SPEC = {
          "race_thorough": True},
         {"name": "TestSeqUnlimited", "quick": 400, "thorough": 16000, "shards_quick": 4, "shards_thorough": 16, "timeout": 1500},
         {"name": "TestConcUnlimited", "quick": 400, "thorough": 16000, "shards_quick": 4, "shards_thorough": 16, "timeout": 1500},
+        {"name": "TestImplicitStart", "quick": 2400, "thorough": 160000, "shards_quick": 8, "shards_thorough": 16, "timeout": 2400,
+         "race_thorough": True},
         {"name": "TestInterleavings", "quick": 6000, "thorough": 600000, "shards_quick": 3, "shards_thorough": 16, "timeout": 1500},
     ],
     "rule": ("rapid-generated schedule trees (depth <= 3, <= 5 children; leaves once/const/line/step/instance_step/unlimited, zero-token "
              "and empty parts anywhere) judged against manual chaining of separately drained parts. TestSeqFinite: scripted Next/Left "
              "by one caller in virtual time, optional on-finish wrapper, config or constructor path. TestConcFinite: 2-8 free-running "
              "goroutines, 4 rounds per case, multiset + linearisability windows for Left. TestSeqUnlimited/TestConcUnlimited: real time, "
-             "1-4 ms parts, callers wait for each token as coreutil.Waiter does. TestInterleavings: 2-3 callers whose interleaving at the "
+             "1-4 ms parts, callers wait for each token as coreutil.Waiter does. TestImplicitStart: 2-8 goroutines released together "
+             "race for the first Next of an UNSTARTED finite schedule (what the engine's instances do), 12 rounds per case; one start "
+             "instant inside the measured window must explain every token. TestInterleavings: 2-3 callers whose interleaving at the "
              "composite's lock-free yield points (hook) is dictated by a drawn choice list. Non-trivial = >= 2 token-bearing parts and "
-             "(nesting depth >= 2 or a zero-token part [seq]; any [conc]; an unknown-length part that is not first [unlimited]; "
+             "(nesting depth >= 2 or a zero-token part [seq]; any [conc]; >= 2 tokens [implicit start]; an unknown-length part that is not first [unlimited]; "
              "a lock-upgrade point reached [interleavings]); distinct = hash of tree+script(+choices)."),
     "floors": {"TestSeqUnlimited/unknown_not_first": 0.15, "TestSeqFinite/zero_token_part": 0.2, "TestConcFinite/left_callers": 0.3,
                "TestConcFinite/callers_ge_4": 0.3, "TestInterleavings/next_upgrade_contended": 0.1,
-               "TestInterleavings/left_upgrade_point": 0.05, "TestSeqUnlimited/left_negative_seen": 0.1},
+               "TestInterleavings/left_upgrade_point": 0.05, "TestImplicitStart/single_elementary_profile": 0.3,
+               "TestImplicitStart/callers_ge_4": 0.4, "TestSeqUnlimited/left_negative_seen": 0.1},
     "manifest": {
         "technique": "model-based property testing (rapid): manual-chaining reference, linearisability windows, harness-scheduled interleavings at hook yield points",
         "text": ("Schedule trees are generated and compared with a reference that drains each elementary part alone from the finish "
                  "of its predecessor: exact token sequence sequentially, exact multiset + per-caller monotonicity + Left() windows "
-                 "under 2-8 concurrent callers, interval oracles in real time for unlimited parts, and deterministic enumeration-by-"
+                 "under 2-8 concurrent callers, interval oracles in real time for unlimited parts, an implicit-start race (one common start instant within the measured window), and deterministic enumeration-by-"
                  "sampling of interleavings at the composite's lock-upgrade points. Exploration: interleavings are sampled, not exhausted."),
         "note": ("Trusts the elementary parts (judged by C01) as reference; goroutine ids parsed from runtime.Stack; real-time sub-checks "
                  "compare only measured instants that bracket each call, so load can make a sample inconclusive, never wrong. "
